@@ -196,6 +196,7 @@ def _polarity(ctx, fn: FuncInfo, or_test, and_test, or_member, and_member, label
 
 
 def check_siblings(ctx) -> None:
+    check_operand_lists(ctx)
     prog = ctx.prog
     a2s = prog.func("cobra.core.gene", "GPR._ast2str")
     _polarity(ctx, a2s, lambda t: t == "isinstance(op, Or)", lambda t: t == "isinstance(op, And)", lambda x: "' or '.join" in x, lambda x: "' and '.join" in x, "_ast2str")
@@ -308,6 +309,33 @@ def check_remover(ctx) -> None:
 
 
 # --------------------------------------------------------------------------------------- nocache
+def check_operand_lists(ctx) -> None:
+    """Every BoolOp built by the package holds its operands in a list: ast.NodeTransformer / NodeVisitor descend into
+    lists only, so a tuple hides the operands from the gene remover and the renamer."""
+    prog = ctx.prog
+    n = 0
+    for fn in prog.all_funcs():
+        if not fn.qualname.startswith(("cobra.core.gene", "cobra.io.sbml", "cobra.manipulation")):
+            continue
+        for c in walk_local(fn.node):
+            if not (isinstance(c, ast.Call) and norm(c.func).split(".")[-1] == "BoolOp"):
+                continue
+            vals = c.args[1] if len(c.args) > 1 else next((k.value for k in c.keywords if k.arg == "values"), None)
+            if vals is None:
+                continue
+            n += 1
+            ok = isinstance(vals, (ast.List, ast.ListComp)) or (isinstance(vals, ast.Call) and norm(vals.func) == "list")
+            if not ok and isinstance(vals, ast.Name):
+                defs = [d for d in walk_local(fn.node) if isinstance(d, ast.Assign) and len(d.targets) == 1 and isinstance(d.targets[0], ast.Name) and d.targets[0].id == vals.id]
+                ok = bool(defs) and all(isinstance(d.value, (ast.List, ast.ListComp)) or (isinstance(d.value, ast.Call) and norm(d.value.func) == "list") for d in defs)
+            if ok:
+                ctx.ok("C08.siblings", fn, c, "operands are held in a list (visible to the node transformers)")
+            else:
+                ctx.bad("C08.siblings", fn, c, f"the operands of this BoolOp are `{norm(vals)}`, not a list: ast.NodeTransformer does not descend into tuples, so remove_genes and rename_genes leave rules built here untouched")
+    if n == 0:
+        raise AnalysisError("no BoolOp construction found")
+
+
 def check_nocache(ctx) -> None:
     prog, eff = ctx.prog, ctx.eff
     gpr = prog.cls("GPR")
